@@ -147,7 +147,11 @@ func Main(t *testing.T, spec Spec) {
 			R: NewRand(seed, spec.Prop, uint64(i)),
 		}
 		sh.line(map[string]any{"t": "start", "case": i})
+		t0 := time.Now()
 		spec.Run(c)
+		if el := time.Since(t0); el > 5*time.Second {
+			sh.line(map[string]any{"t": "slow", "case": i, "ms": el.Milliseconds()})
+		}
 		sh.mu.Lock()
 		sh.cases++
 		if c.nontrivial {
